@@ -95,4 +95,48 @@ def coversOfTables (s : DSymData) (ts : List Table) (e2w : EdgeWords) : Outcome 
        | .panic => .panic)
     | o => o) (.ok [])
 
+/-! ### decidable forms of the hypotheses of the C05 theorems
+
+Evaluated by the driver on every explored input ("the theorem applies to this case");
+their soundness is proved in Proofs/CoversMonitors.lean. -/
+
+/-- the formal inverse of a word -/
+def invWord (w : List Int) : List Int := (w.map (fun g => -g)).reverse
+
+/-- `ValidSet`: array length, entries in range, involutions -/
+def validSetB (s : DSetData) : Bool :=
+  s.op.size == s.size * (s.dim + 1) &&
+  (List.range (s.dim + 1)).all fun i => (List.range s.size).all fun d0 =>
+    let e := s.opU i (d0 + 1)
+    decide (1 ≤ e) && decide (e ≤ s.size) && s.opU i e == d0 + 1
+
+/-- `ValidTables`: valid D-set, orbit tables = those of `collect_orbits`, one v entry per orbit -/
+def validTablesB (y : DSymData) : Bool :=
+  validSetB y.dset && y.orbitIndex == (collectOrbits y.dset).index &&
+  y.orbitRs == (collectOrbits y.dset).rs && y.orbitVs.size == y.orbitRs.size
+
+/-- `SheetCompat` -/
+def sheetCompatB (s : DSetData) (n : Nat) (σ : Nat → Nat → Nat → Nat) : Bool :=
+  (List.range n).all fun k => (List.range (s.dim + 1)).all fun i => (List.range s.size).all fun d0 =>
+    decide (σ k i (d0 + 1) < n) && σ (σ k i (d0 + 1)) i (s.opU i (d0 + 1)) == k
+
+/-- `Table.InvConsistent`: rectangular rows of width 2·nrGens+1; every defined entry `r` is a row
+    and the mirrored column of row `r` leads back -/
+def invConsistentB (t : Table) : Bool :=
+  let w := 2 * t.nrGens + 1
+  t.rows.all (fun row => row.size == w) &&
+  (List.range t.len).all fun c => (List.range w).all fun col =>
+    let r := (t.rows.getD c #[]).getD col (-1)
+    r < 0 || (decide (r.toNat < t.len) &&
+      (t.rows.getD r.toNat #[]).getD (2 * t.nrGens - col) (-1) == (c : Int))
+
+/-- `EdgeWordsOk`: the words on the two sides of an edge are formal inverses of each other, or
+    the edge is a mirror (`op_i d = d`) whose word, traced twice, returns to every row -/
+def edgeWordsOkB (s : DSymData) (t : Table) (e2w : EdgeWords) : Bool :=
+  (List.range (s.dim + 1)).all fun i => (List.range s.size).all fun d0 =>
+    wordOf e2w (s.dset.opU i (d0 + 1)) i == invWord (wordOf e2w (d0 + 1) i) ||
+    (s.dset.opU i (d0 + 1) == d0 + 1 &&
+      (List.range t.len).all fun k =>
+        t.traceWord k (wordOf e2w (d0 + 1) i ++ wordOf e2w (d0 + 1) i) == .ok k)
+
 end DSymVerif.Covers
